@@ -1722,6 +1722,52 @@ fn main() {
             }
         });
     }
+    // (xiii) a SKIP that lands on nl-2, on the final boundary-entrypoint word (nl-1), or beyond (nl)
+    ctx.family("tfm-skip-final-word", "hand-written fonts whose lig/kern array (4, 5 or 6 words) ends with the boundary entrypoint word [255,0,0,1]; word 0 (entry of a) is a kern step whose SKIP lands on word nl-2, on the final word nl-1, or on nl (too far: genuinely bad) x right character a/b: the first two are legal (TFtoPL §70 complains only if i+skip+1 >= nl) and must convert without message", 18, |i, acc| {
+        let d = vcore::digits(i, &[3, 3, 2]);
+        let nl = 4 + d[0] as usize;
+        let target = [nl - 2, nl - 1, nl][d[1] as usize];
+        let mut words: Vec<[u8; 4]> = vec![[(target - 1) as u8, [b'a', b'b'][d[2] as usize], 128, 0]];
+        for k in 1..nl - 1 {
+            words.push([128, [b'b', b'a'][k % 2], 128, k as u8]);
+        }
+        words.push([255, 0, 0, 1]);
+        let entries = vec![(b'a', 0u8)];
+        let p = Prog { words: vec![], starts: vec![], lb_start: None, rbc: None };
+        let b = write_tfm_with(&p, 0, None, Some((&words, &entries)));
+        let case = || json!({"kind": "tfm-skip-final-word", "words": words, "skip_lands_on": target, "nl": nl});
+        if target < nl {
+            if let Ok(Conv { messages, .. }) = tftopl(&b) {
+                if !messages.is_empty() {
+                    acc.eval();
+                    acc.fail(i, case(), "no message: the SKIP stays inside the array", format!("{messages:?}"), "a legal SKIP (landing inside the lig/kern array) draws a TFtoPL message");
+                    return;
+                }
+            }
+        }
+        let before = acc.nontrivial;
+        let mut tmp = Acc::default();
+        check_tfm(i, &b, &case, &mut tmp);
+        // landing on the final word = an unconditional stop met inside a chain: class D41 if the round trip fails
+        if target == nl - 1 && tmp.fail_count > 0 {
+            let first = tmp.fails[0].clone();
+            tmp.fails.clear();
+            tmp.fail_count = 0;
+            acc.merge(tmp);
+            acc.known("D41", i, || {
+                let mut v = first.case.clone();
+                v["note"] = json!(first.note);
+                v["observed"] = json!(first.observed);
+                v
+            });
+        } else {
+            acc.merge(tmp);
+        }
+        if acc.nontrivial > before && target == nl - 1 {
+            acc.count("skip_lands_exactly_on_final_boundary_entrypoint_word");
+        }
+    });
+    ctx.require("skip_lands_exactly_on_final_boundary_entrypoint_word", "a warning-free hand-written font in which a SKIP lands exactly on the final boundary-entrypoint word");
     ctx.require("sevenbit_flag_with_8bit_only_nextlarger_chain", "a seven-bit-safe-flagged hand-written font with a NEXTLARGER chain among 8-bit characters only");
     ctx.require("design_size_in_1_to_1_0625pt", "a hand-written font with a design size in [1.0, 1.0625) pt went through the round trip");
     ctx.require("font_with_exactly_256_extensible_recipes", "a warning-free hand-written font with exactly 256 extensible recipes went through the whole round trip");
